@@ -62,12 +62,25 @@ def _check(case, ctx):
 def strategy(tier):
     @st.composite
     def _s(draw):
-        case = draw(common.mixed_case(tier, ne_share=3, min_len=2,
-                                      trace_kw={"kinds": ["walk", "sparse", "outlier", "outlier", "outlier", "exact", "random"]}))
+        jump = draw(st.integers(0, 3)) == 0
+        if jump:
+            # an outlier in the middle of the trace + a finite max_dist: the matcher stops early, which is when
+            # continue_with_distance is meant to be used
+            case = draw(common.mixed_case(tier, ne_share=2, min_len=4, families=("simple", "distance"),
+                                          trace_kw={"kinds": ["outlier"], "sigmas": [0.05, 0.1]}))
+            case["config"]["max_dist"] = draw(st.sampled_from([0.5, 1.0, 1.5]))
+            case["config"]["max_dist_init"] = None
+            case["config"]["min_prob_norm"] = None
+        else:
+            case = draw(common.mixed_case(tier, ne_share=3, min_len=2,
+                                          trace_kw={"kinds": ["walk", "sparse", "outlier", "outlier", "outlier", "exact", "random"]}))
         cfg = case["config"]
         if cfg.get("max_lattice_width") is None and draw(st.booleans()):
             cfg["max_lattice_width"] = draw(st.sampled_from([1, 2, 3]))
         case["ops"] = draw(common.history_ops(len(case["trace"]), with_cwd=True, max_ops=5))
+        if jump:
+            n = len(case["trace"])
+            case["ops"] = [["match", n], ["cwd", draw(st.integers(1, 3)), draw(st.integers(1, 3)), draw(st.sampled_from([None, 3.0, 10.0, 60.0]))]] + case["ops"][1:]
         case["unique"] = draw(st.booleans())
         case["debug"] = draw(st.booleans())
         return case
